@@ -14,9 +14,10 @@ Qed.
 Example t_new_is_fresh_dropped : t_droprx t_fresh 0 = (t_new, ODone).
 Proof. reflexivity. Qed.
 
-Definition Rt (b : bool) (c : tchan) (l : list (option Z)) (a : achan) (m : list (option Z)) : Prop :=
-  l = m /\ a_open a = b /\ tl_pos c = a_n a /\ tl_rx c = a_rx a /\ a_rx a = nlive l /\
-  tl_closed c = (negb b || Nat.eqb (a_rx a) 0) /\
+(* h = number of live State handles (Sender handles: num_tx) *)
+Definition Rt (h : nat) (c : tchan) (l : list (option Z)) (a : achan) (m : list (option Z)) : Prop :=
+  l = m /\ (a_tx a = h /\ tl_tx c = h) /\ tl_pos c = a_n a /\ tl_rx c = a_rx a /\ a_rx a = nlive l /\
+  tl_closed c = (Nat.eqb h 0 || Nat.eqb (a_rx a) 0) /\
   sl_pos (tl_slot c) = a_n a - 1 /\ sl_rem (tl_slot c) = nbehind (a_n a) l /\
   ((1 <= nbehind (a_n a) l)%nat -> sl_val (tl_slot c) = Some (a_last a)) /\
   bounded (a_n a) l.
@@ -43,10 +44,10 @@ Proof.
 Qed.
 
 (* a receiver that is behind gets the latest value (after at most one Lagged notice) *)
-Lemma t_poll_behind n rx closed rem last k :
+Lemma t_poll_behind n rx closed rem last tx k :
   k < n ->
-  t_stream_poll 3 (TChan n rx closed (TSlot (n - 1) rem (Some last))) k =
-  (t_release (TChan n rx closed (TSlot (n - 1) rem (Some last))), n, OItem last CTrue).
+  t_stream_poll 3 (TChan n rx closed (TSlot (n - 1) rem (Some last)) tx) k =
+  (t_release (TChan n rx closed (TSlot (n - 1) rem (Some last)) tx), n, OItem last CTrue).
 Proof.
   intros L. destruct (Z.eq_dec k (n - 1)) as [->|N].
   - cbn [t_stream_poll]. unfold t_bstream_poll. rewrite recv_ref_hit by reflexivity.
@@ -57,18 +58,18 @@ Proof.
     cbn [tl_slot sl_val]. replace (n - 1 + 1) with n by lia. reflexivity.
 Qed.
 
-Lemma t_poll_uptodate n rx closed sl_rem sl_val :
-  t_stream_poll 3 (TChan n rx closed (TSlot (n - 1) sl_rem sl_val)) n =
-  (TChan n rx closed (TSlot (n - 1) sl_rem sl_val), n, if closed then OEnd else OPending).
+Lemma t_poll_uptodate n rx closed sl_rem sl_val tx :
+  t_stream_poll 3 (TChan n rx closed (TSlot (n - 1) sl_rem sl_val) tx) n =
+  (TChan n rx closed (TSlot (n - 1) sl_rem sl_val) tx, n, if closed then OEnd else OPending).
 Proof.
   cbn [t_stream_poll]. unfold t_bstream_poll. rewrite recv_ref_empty by (cbn; lia).
   cbn [tl_closed]. destruct closed; reflexivity.
 Qed.
 
-Lemma t_drop_behind n rx closed rem val k :
+Lemma t_drop_behind n rx closed rem val tx k :
   k < n ->
-  t_drain 3 (TChan n rx closed (TSlot (n - 1) rem val)) k n =
-  (t_release (TChan n rx closed (TSlot (n - 1) rem val)), ODone).
+  t_drain 3 (TChan n rx closed (TSlot (n - 1) rem val) tx) k n =
+  (t_release (TChan n rx closed (TSlot (n - 1) rem val) tx), ODone).
 Proof.
   intros L. assert (Ln : (k <? n) = true) by (apply Z.ltb_lt; lia).
   assert (Lf : (n <? n) = false) by (apply Z.ltb_ge; lia).
@@ -87,23 +88,23 @@ Proof. intros L. apply Z.ltb_lt in L. now rewrite L. Qed.
 Lemma bit_ltb_false k n : n <= k -> bit (Z.ltb k n) = 0%nat.
 Proof. intros L. apply Z.ltb_ge in L. now rewrite L. Qed.
 
-Ltac prj := cbn [tl_pos tl_rx tl_closed tl_slot sl_pos sl_rem sl_val a_n a_last a_rx a_open
-  ch_poll ch_set ch_sub ch_droprx ch_close ch_new chan rx tokio_impl abs_impl fst snd] in *.
+Ltac prj := cbn [tl_pos tl_rx tl_closed tl_slot tl_tx sl_pos sl_rem sl_val a_n a_last a_rx a_tx
+  ch_poll ch_set ch_sub ch_droprx ch_clone ch_droptx ch_new chan rx tokio_impl abs_impl fst snd] in *.
 
-Lemma Rt_shape b c l a m : Rt b c l a m -> map livef l = map livef m.
+Lemma Rt_shape h c l a m : Rt h c l a m -> map livef l = map livef m.
 Proof. intros (-> & _). reflexivity. Qed.
 
-Lemma Rt_init : Rt true (ch_new tokio_impl) [] (ch_new abs_impl) [].
+Lemma Rt_init : Rt 1 (ch_new tokio_impl) [] (ch_new abs_impl) [].
 Proof.
   cbn. unfold Rt; cbn. repeat split; auto; try lia. intros s k H. destruct s; discriminate.
 Qed.
 
-Lemma Rt_set c l a m v : Rt true c l a m ->
-  Rt true (fst (ch_set tokio_impl c v)) l (fst (ch_set abs_impl a v)) m /\
+Lemma Rt_set h c l a m v : Rt (S h) c l a m ->
+  Rt (S h) (fst (ch_set tokio_impl c v)) l (fst (ch_set abs_impl a v)) m /\
   snd (ch_set tokio_impl c v) = snd (ch_set abs_impl a v).
 Proof.
-  intros (-> & Ho & Hp & Hrx & Hl & Hc & Hsp & Hr & Hv & Hb).
-  destruct c as [n rx closed [sp rem val]], a as [an last arx open]; prj. subst.
+  intros (-> & [Ho Htx] & Hp & Hrx & Hl & Hc & Hsp & Hr & Hv & Hb).
+  destruct c as [n rx closed [sp rem val] tx], a as [an last arx atx]; prj. subst.
   unfold t_send, a_set; cbn [tl_rx a_rx]. split; [|reflexivity].
   destruct (Nat.eqb (nlive m) 0) eqn:E; cbn [fst].
   - unfold Rt; cbn. rewrite E. repeat split; auto.
@@ -113,12 +114,12 @@ Proof.
     + eapply bounded_mono; [|eassumption]. lia.
 Qed.
 
-Lemma Rt_sub c l a m : Rt true c l a m ->
-  Rt true (fst (ch_sub tokio_impl c)) (l ++ [Some (snd (ch_sub tokio_impl c))])
+Lemma Rt_sub h c l a m : Rt (S h) c l a m ->
+  Rt (S h) (fst (ch_sub tokio_impl c)) (l ++ [Some (snd (ch_sub tokio_impl c))])
           (fst (ch_sub abs_impl a)) (m ++ [Some (snd (ch_sub abs_impl a))]).
 Proof.
-  intros (-> & Ho & Hp & Hrx & Hl & Hc & Hsp & Hr & Hv & Hb).
-  destruct c as [n rx closed [sp rem val]], a as [an last arx open]; prj. subst.
+  intros (-> & [Ho Htx] & Hp & Hrx & Hl & Hc & Hsp & Hr & Hv & Hb).
+  destruct c as [n rx closed [sp rem val] tx], a as [an last arx atx]; prj. subst.
   unfold Rt; cbn. rewrite nlive_app, nbehind_app, bit_ltb_false by lia.
   repeat split; auto; try lia.
   - destruct (nlive m); reflexivity.
@@ -126,17 +127,17 @@ Proof.
   - apply bounded_app; auto; lia.
 Qed.
 
-Lemma Rt_poll b c l a m s r q : Rt b c l a m ->
+Lemma Rt_poll h c l a m s r q : Rt h c l a m ->
   nth_error l s = Some (Some r) -> nth_error m s = Some (Some q) ->
-  Rt b (fst (fst (ch_poll tokio_impl c r))) (upd l s (Some (snd (fst (ch_poll tokio_impl c r)))))
+  Rt h (fst (fst (ch_poll tokio_impl c r))) (upd l s (Some (snd (fst (ch_poll tokio_impl c r)))))
        (fst (fst (ch_poll abs_impl a q))) (upd m s (Some (snd (fst (ch_poll abs_impl a q))))) /\
   snd (ch_poll tokio_impl c r) = snd (ch_poll abs_impl a q).
 Proof.
-  intros (-> & Ho & Hp & Hrx & Hl & Hc & Hsp & Hr & Hv & Hb) El Em.
+  intros (-> & [Ho Htx] & Hp & Hrx & Hl & Hc & Hsp & Hr & Hv & Hb) El Em.
   rewrite El in Em. injection Em as <-.
-  destruct c as [n rx closed [sp rem val]], a as [an last arx open]; prj. subst.
+  destruct c as [n rx closed [sp rem val] tx], a as [an last arx atx]; prj. subst.
   pose proof (Hb _ _ El) as Lr. pose proof (nlive_pos _ _ _ El) as Lp.
-  unfold a_poll; cbn [a_n a_last a_open].
+  unfold a_poll, a_open; cbn [a_n a_last a_tx].
   destruct (Z.ltb_spec r an) as [L|L].
   - pose proof (nbehind_pos _ _ _ _ El L) as Hn. rewrite (Hv Hn).
     rewrite t_poll_behind by auto. cbn [fst snd]. split; [|reflexivity].
@@ -152,24 +153,24 @@ Proof.
     rewrite (upd_id _ _ _ _ El). split.
     + unfold Rt; cbn. repeat split; auto.
     + destruct (nlive m) as [|x]; [lia|]. cbn. rewrite orb_false_r.
-      destruct b; reflexivity.
+      destruct (Nat.eqb h 0); reflexivity.
 Qed.
 
-Lemma Rt_drop b c l a m s r q : Rt b c l a m ->
+Lemma Rt_drop h c l a m s r q : Rt h c l a m ->
   nth_error l s = Some (Some r) -> nth_error m s = Some (Some q) ->
-  Rt b (fst (ch_droprx tokio_impl c r)) (upd l s None) (fst (ch_droprx abs_impl a q)) (upd m s None) /\
+  Rt h (fst (ch_droprx tokio_impl c r)) (upd l s None) (fst (ch_droprx abs_impl a q)) (upd m s None) /\
   snd (ch_droprx tokio_impl c r) = snd (ch_droprx abs_impl a q).
 Proof.
-  intros (-> & Ho & Hp & Hrx & Hl & Hc & Hsp & Hr & Hv & Hb) El Em.
+  intros (-> & [Ho Htx] & Hp & Hrx & Hl & Hc & Hsp & Hr & Hv & Hb) El Em.
   rewrite El in Em. injection Em as <-.
-  destruct c as [n rx closed [sp rem val]], a as [an last arx open]; prj. subst.
+  destruct c as [n rx closed [sp rem val] tx], a as [an last arx atx]; prj. subst.
   pose proof (Hb _ _ El) as Lr. pose proof (nlive_pos _ _ _ El) as Lp.
   pose proof (nlive_upd_none _ _ _ El) as Ln.
-  assert (Hcl : (if Nat.eqb (nlive m - 1) 0 then true else negb b || Nat.eqb (nlive m) 0) =
-                (negb b || Nat.eqb (nlive m - 1) 0)).
+  assert (Hcl : (if Nat.eqb (nlive m - 1) 0 then true else Nat.eqb h 0 || Nat.eqb (nlive m) 0) =
+                (Nat.eqb h 0 || Nat.eqb (nlive m - 1) 0)).
   { destruct (nlive m) as [|x]; [lia|]. cbn [Nat.eqb]. rewrite orb_false_r.
-    destruct (Nat.eqb (S x - 1) 0), b; reflexivity. }
-  unfold t_droprx, a_droprx; cbn [tl_rx tl_pos tl_closed tl_slot a_n a_last a_rx a_open].
+    destruct (Nat.eqb (S x - 1) 0), (Nat.eqb h 0); reflexivity. }
+  unfold t_droprx, a_droprx; cbn [tl_rx tl_pos tl_closed tl_slot tl_tx a_n a_last a_rx a_tx].
   destruct (Z.ltb_spec r an) as [L|L].
   - rewrite t_drop_behind by auto. cbn [fst snd]. split; [|reflexivity].
     pose proof (nbehind_upd an m s r None El) as U. cbn [behind1] in U.
@@ -187,10 +188,20 @@ Proof.
        [ intros H; apply Hv; lia | apply bounded_upd; auto; discriminate ]).
 Qed.
 
-Lemma Rt_close c l a m : Rt true c l a m -> Rt false (ch_close tokio_impl c) l (ch_close abs_impl a) m.
+Lemma Rt_clone h c l a m : Rt (S h) c l a m ->
+  Rt (S (S h)) (ch_clone tokio_impl c) l (ch_clone abs_impl a) m.
 Proof.
-  intros (-> & Ho & Hp & Hrx & Hl & Hc & Hsp & Hr & Hv & Hb).
-  unfold Rt; cbn. repeat split; auto.
+  intros (-> & [Ho Htx] & Hp & Hrx & Hl & Hc & Hsp & Hr & Hv & Hb).
+  unfold Rt; cbn. rewrite Ho, Htx. repeat split; auto.
+Qed.
+
+(* dropping a handle closes the channel only when it was the last one *)
+Lemma Rt_droptx h c l a m : Rt (S h) c l a m ->
+  Rt h (ch_droptx tokio_impl c) l (ch_droptx abs_impl a) m.
+Proof.
+  intros (-> & [Ho Htx] & Hp & Hrx & Hl & Hc & Hsp & Hr & Hv & Hb).
+  unfold Rt; cbn. rewrite Ho, Htx, Hc. cbn [Nat.sub Nat.eqb orb]. rewrite Nat.sub_0_r.
+  repeat split; auto.
 Qed.
 
 (* one-shot *)
@@ -230,7 +241,8 @@ Proof.
   - intros; now apply Rt_sub.
   - intros; eapply Rt_poll; eauto.
   - intros; eapply Rt_drop; eauto.
-  - intros; now apply Rt_close.
+  - intros; now apply Rt_clone.
+  - intros; now apply Rt_droptx.
   - exact Rot_init.
   - intros; now apply Rot_notify.
   - intros; now apply Rot_drop.
